@@ -100,6 +100,10 @@ var mutationsCmd = &cobra.Command{
 			fmt.Fprintf(f, "Tree ID\tSite\tBranch ID\tNode Name\tParent Character\tChild Character\tTotal tips\tSame Character Tips\n")
 		}
 		for t := range treechan {
+			if t.Err != nil {
+				io.LogError(t.Err)
+				return t.Err
+			}
 			if mutationseems {
 				if muts, err = mutations.CountEEMs(t.Tree, align); err != nil {
 					io.LogError(err)
